@@ -312,26 +312,32 @@ def numericOf : Ty → Val → Option Num
   | .named _ u, .named _ w => numericOf u w
   | _, _ => none
 
-mutual
 /-- `convertResultNumber`: switch over `v.Kind()`, the kind of the *static* result type; for a result
     declared as an interface (every plugin function: `(interface{}, error)`) the kind of the value in it.
-    A slice / array / map of Go values becomes an ECAL list / map with every element converted by its
-    element type; `[]interface{}` and `map[interface{}]interface{}` are ECAL values already and are passed
-    on as they are (numbers of other Go types *inside* them are not looked for). -/
+    Only the numeric kinds are converted: a slice, array or map of Go values (`seq`, `gomap`) is passed
+    on as it is — see `demandedResult` and the known finding `nested-result-numbers`. -/
 def convertResultNumber (static : Ty) (v : Val) : Val :=
+  let t := if static.isInterface then v.ty.getD static else static
+  match numericOf t v with
+  | some x => .f64 x
+  | none => v
+
+mutual
+/-- What the property's clause "Go integers and floats delivered as ECAL numbers" would demand of a
+    result, and what the CANDIDATE repair `fixes/C19-nested-result-numbers.patch` (NOT applied to the
+    code) does: a slice / array / map of Go values becomes an ECAL list / map with every element converted
+    by its element type; `[]interface{}` and `map[interface{}]interface{}` are ECAL values already and
+    are passed on as they are. The code as it is does `convertResultNumber` only. -/
+def demandedResult (static : Ty) (v : Val) : Val :=
   match v with
-  | .seq t xs => if t = .iface then v else .elist (convertSeq t xs)
-  | .gomap kt vt kvs => .emapv (convertMap kt vt kvs)
-  | v =>
-    let t := if static.isInterface then v.ty.getD static else static
-    match numericOf t v with
-    | some x => .f64 x
-    | none => v
-def convertSeq (t : Ty) : Vals → Vals
+  | .seq t xs => if t = .iface then v else .elist (demandedSeq t xs)
+  | .gomap kt vt kvs => .emapv (demandedMap kt vt kvs)
+  | v => convertResultNumber static v
+def demandedSeq (t : Ty) : Vals → Vals
   | .nil => .nil
-  | .cons v vs => .cons (convertResultNumber t v) (convertSeq t vs)
-def convertMap (kt vt : Ty) : Vals → Vals
-  | .cons k (.cons v rest) => .cons (convertResultNumber kt k) (.cons (convertResultNumber vt v) (convertMap kt vt rest))
+  | .cons v vs => .cons (demandedResult t v) (demandedSeq t vs)
+def demandedMap (kt vt : Ty) : Vals → Vals
+  | .cons k (.cons v rest) => .cons (demandedResult kt k) (.cons (demandedResult vt v) (demandedMap kt vt rest))
   | _ => .nil
 end
 
